@@ -23,7 +23,7 @@ DESIGN_REF = "DESIGN.md section 4, C17"
 FID_O11 = "O11-add-z1-unreduced"
 
 RULE = (
-    "(1) small_*: for prime-order curves over F_p found by brute-force point counting (quick p in {11,23,31}; thorough every prime 11..47, up to 3 "
+    "(1) small_*: for prime-order curves over F_p found by brute-force point counting (quick p in {11,23,31}; thorough every prime 11..47, 2-3 "
     "curves each) EVERY group element in EVERY Jacobian scaling z=1..p-1, plus the library-made forms (-P with its unreduced negative Y, results of "
     "*, + before/after scale(), table results, to_affine() Points incl. unreduced ones, -Point, INFINITY) is enumerated: all ordered operand pairs for +, "
     "all operands for double / negation / x() / y() / scale() / to_affine() / == on a representation sub-grid, all scalars 0..2n (+ a few larger) for * "
@@ -184,7 +184,7 @@ def small_curve_keys(tier):
         return [(11, 1, 5), (23, 1, 4), (31, 1, 3)]
     keys = []
     for p in (11, 13, 17, 19, 23, 29, 31, 37, 41, 43, 47):
-        for a, b, n in ecref.pick_small_curves(p, 3):
+        for a, b, n in ecref.pick_small_curves(p, 3 if p < 37 else 2):
             keys.append((p, a, b))
     return keys
 
@@ -1221,7 +1221,7 @@ def check_ecdh(case, rec):
     for nm, v in (("1", 1), ("2", 2), ("n-1", n - 1), ("n-2", n - 2)):
         if da == v or db == v:
             rec.cls("ecdh.d=" + nm)
-    rec.nt((case["curve"], da, db))
+    rec.nt()
 
 
 def strat_ecdh(tier):
